@@ -33,6 +33,9 @@ pub struct IrrDb {
     pub as_sets: BTreeMap<String, Vec<String>>,
     pub route_sets: BTreeMap<String, Vec<String>>,
     pub filter_sets: BTreeMap<String, String>,
+    /// the copies of filter-sets that a second registry (source TEST2, selected by default as well) holds: a name in both
+    /// tables is answered with two objects, the one of TEST first
+    pub filter_sets2: BTreeMap<String, String>,
     pub routes4: BTreeMap<String, Vec<String>>,
     pub routes6: BTreeMap<String, Vec<String>>,
     pub errors: BTreeMap<String, String>,
@@ -69,6 +72,10 @@ impl IrrDb {
             as_sets: map_list(&v["as_sets"]),
             route_sets: map_list(&v["route_sets"]),
             filter_sets: v["filter_sets"]
+                .as_object()
+                .map(|o| o.iter().map(|(k, x)| (k.to_uppercase(), x.as_str().unwrap_or("").to_string())).collect())
+                .unwrap_or_default(),
+            filter_sets2: v["filter_sets2"]
                 .as_object()
                 .map(|o| o.iter().map(|(k, x)| (k.to_uppercase(), x.as_str().unwrap_or("").to_string())).collect())
                 .unwrap_or_default(),
@@ -240,15 +247,23 @@ impl IrrDb {
         if let Some(rest) = q.strip_prefix("!m") {
             let (class, name) = rest.split_once(',').unwrap_or((rest, ""));
             if class == "filter-set" {
-                if let Some(expr) = self.filter_sets.get(&name.to_uppercase()) {
-                    let mut remarks = String::new();
-                    while remarks.len() < self.pad {
-                        remarks.push_str("remarks:        ------------------------------------------------------------\n");
-                    }
-                    let obj = format!(
-                        "filter-set:     {name}\ndescr:          generated\n{remarks}mp-filter:      {expr}\nchanged:        noc@example.net 20240101\ntech-c:         DUMY-TEST\nadmin-c:        DUMY-TEST\nmnt-by:         MAINT-TEST\nsource:         TEST\n"
-                    );
-                    return Some(format!("A{}\n{}C\n", obj.len(), obj));
+                let mut remarks = String::new();
+                while remarks.len() < self.pad {
+                    remarks.push_str("remarks:        ------------------------------------------------------------\n");
+                }
+                let object = |expr: &String, source: &str| {
+                    format!(
+                        "filter-set:     {name}\ndescr:          generated\n{remarks}mp-filter:      {expr}\nchanged:        noc@example.net 20240101\ntech-c:         DUMY-TEST\nadmin-c:        DUMY-TEST\nmnt-by:         MAINT-TEST\nsource:         {source}\n"
+                    )
+                };
+                // one object per registry that has the name, in the server's order of the registries
+                let objs: Vec<String> = [(self.filter_sets.get(&name.to_uppercase()), "TEST"), (self.filter_sets2.get(&name.to_uppercase()), "TEST2")]
+                    .iter()
+                    .filter_map(|(e, src)| e.map(|e| object(e, src)))
+                    .collect();
+                if !objs.is_empty() {
+                    let body = objs.join("\n");
+                    return Some(format!("A{}\n{}C\n", body.len(), body));
                 }
             }
             let upper = name.to_uppercase();
@@ -842,6 +857,7 @@ pub fn project_update_in(cfg: &Elem, installed: &[String]) -> Value {
     };
     if cfg.is_delete() {
         wipe(&mut policies);
+        foreign.push("/configuration[delete]".into());
     }
     for c in &cfg.children {
         if c.name != "policy-options" {
@@ -849,7 +865,9 @@ pub fn project_update_in(cfg: &Elem, installed: &[String]) -> Value {
             continue;
         }
         if c.is_delete() {
+            // a write above the level of policy statements (whatever else lives in that container goes with it)
             wipe(&mut policies);
+            foreign.push("/configuration/policy-options[delete]".into());
         }
         for ps in &c.children {
             if ps.name != "policy-statement" {
@@ -1654,8 +1672,10 @@ async fn serve_session<S: tokio::io::AsyncRead + tokio::io::AsyncWrite + Unpin>(
                     }
                     ev["den"] = den_map(fs);
                 }
-                let failing = matches!(fault.as_ref().map(|f| f.kind.as_str()), Some("rpc-error") | Some("delayed-error") | Some("malformed") | Some("wrong-id") | Some("no-ok") | Some("close-before")
-                                       | Some("error+ok") | Some("ok+error") | Some("prefixed-error") | Some("warning+error"));
+                // every kind of fault but these leaves the request unexecuted (a damaged reply, "mut:", is sent after the
+                // request was carried out)
+                let failing = !matches!(fault.as_ref().map(|f| f.kind.as_str()), None | Some("none") | Some("close-after") | Some("late-ok") | Some("junos-error"))
+                    && !fault.as_ref().is_some_and(|f| f.kind.starts_with("mut:"));
                 if !failing {
                     if let Some(s) = staged.as_mut() {
                         // override / update: what is loaded becomes the whole configuration of the instance
@@ -1735,11 +1755,13 @@ async fn serve_session<S: tokio::io::AsyncRead + tokio::io::AsyncWrite + Unpin>(
             }
             // other shapes of a negative answer: the error next to the positive indication (either order), after a
             // warning, and with the base namespace bound to a prefix
-            "error+ok" | "ok+error" | "warning+error" => {
+            "error+ok" | "ok+error" | "warning+error" | "error+warning" | "error+warning+warning" => {
                 let warning = RPC_ERROR.replace("<error-severity>error</error-severity>", "<error-severity>warning</error-severity>");
                 let inner = match fk.as_str() {
                     "error+ok" => format!("{RPC_ERROR}<ok/>"),
                     "ok+error" => format!("<ok/>{RPC_ERROR}"),
+                    "error+warning" => format!("{RPC_ERROR}{warning}"),
+                    "error+warning+warning" => format!("{RPC_ERROR}{warning}{warning}"),
                     _ => format!("{warning}{RPC_ERROR}"),
                 };
                 if kind == "load" {
@@ -1757,6 +1779,18 @@ async fn serve_session<S: tokio::io::AsyncRead + tokio::io::AsyncWrite + Unpin>(
                     vec![format!("<nc:rpc-reply message-id=\"{id}\" xmlns:nc=\"{BASE_NS}\">{e}</nc:rpc-reply>{EOM}")]
                 }
             }
+            // an error with another error-tag of RFC 6241 appendix A (what it is called does not make it less of an error)
+            t if t.starts_with("tag:") => {
+                let e = RPC_ERROR.replace("<error-tag>operation-failed</error-tag>", &format!("<error-tag>{}</error-tag>", &t[4..]));
+                if kind == "load" {
+                    vec![format!("<rpc-reply message-id=\"{id}\" xmlns=\"{BASE_NS}\"><load-configuration-results>{e}<load-error-count>1</load-error-count></load-configuration-results></rpc-reply>{EOM}")]
+                } else {
+                    vec![format!("<rpc-reply message-id=\"{id}\" xmlns=\"{BASE_NS}\">{e}</rpc-reply>{EOM}")]
+                }
+            }
+            // neither a positive indication nor an error: results that only count zero errors
+            "no-ok-count0" if kind == "load" => vec![format!("<rpc-reply message-id=\"{id}\" xmlns=\"{BASE_NS}\"><load-configuration-results><load-error-count>0</load-error-count></load-configuration-results></rpc-reply>{EOM}")],
+            "no-ok-count0" => vec![format!("<rpc-reply message-id=\"{id}\" xmlns=\"{BASE_NS}\"></rpc-reply>{EOM}")],
             "malformed" => vec![format!("<rpc-reply message-id=\"{id}\" xmlns=\"{BASE_NS}\"><ok></rpc-reply>{EOM}")],
             "no-ok" => vec![format!("<rpc-reply message-id=\"{id}\" xmlns=\"{BASE_NS}\"></rpc-reply>{EOM}")],
             // the negative answer to a commit in Junos' own shape: the error sits inside <routing-engine>
